@@ -215,14 +215,13 @@ Fixpoint plain_items (b : dblock) {struct b} : bool :=
   | _ => true
   end.
 
-(* class "tight tail" (F7): a list that is written tight (no item has two paragraphs) in which
-   some item holds a rule or a table after its text (re-read as a setext heading or as a lazy
-   continuation line) or two block quotes in a row (written `> b` `> c` on consecutive lines and
-   re-read as ONE quote).
-   "Written tight" is GraphBlock::is_sparce_list (model/graph.rs:53-64): it counts the Plain/Para
-   blocks of each item, i.e. the paragraphs of the item plus the item text that a LEADING heading
-   becomes; a heading further down in the item stays a heading and does not make the list loose
-   (`1. a⏎⏎   ***⏎2. c⏎⏎   ## d` is written tight). *)
+(* the shape "tight tail" (F7; formerly known-finding class 3, F-TIGHTTAIL): a list that WAS written tight (no
+   item with two paragraphs, the item text that a leading heading becomes counted) in which some item holds a rule
+   or a table (under text: re-read as a setext heading / as a lazy continuation line) or two block quotes in a row
+   (re-read as ONE quote).  Repaired in the writer: GraphBlock::is_sparce_list (model/graph.rs:53-84) writes a
+   list sparse as soon as an item holds two blocks in a row that cannot stand on consecutive lines
+   (Project.is_sparse / absorbs).  The predicate classifies nothing any more and is kept only to name the shape
+   in examples. *)
 Definition is_dpara (x : dblock) : bool := match x with DPara _ _ => true | _ => false end.
 Definition item_paras (it : list dblock) : nat :=
   match it with
@@ -292,7 +291,7 @@ Definition p_identity (c : libcase) (o : note_obs) : bool :=
 Definition note_classes (c : libcase) (o : note_obs) : list N :=
   match note_blocks c (no_key o) with
   | Some bs =>
-      flag 1 (inert_blocks bs) ++ flag 3 (forallb calm_items bs)
+      flag 1 (inert_blocks bs)
   | None => [9%N]
   end.
 
